@@ -38,6 +38,27 @@ CHECKS.update({
         design="5/C15"),
 })
 
+CHECKS.update({
+    "C03": dict(
+        engine="tgv-ide",
+        technique=FORM_E + "; oracle: every query of the full query set returns (no panic, abort, stack overflow or fuel exhaustion), subprocess-isolated",
+        text="Every workspace of the bounded space (exhaustive stress menu of self/mutual references and redefinitions in one- and two-file layouts, every prefix and every single-token edit of every seed program, variants) is analysed by the real analysis on a 2 MiB stack and every query kind is issued at every offset / range of the plan; a dying worker is attributed to its case through a trace file.",
+        note="quick tier thins position queries away from the edit point (every 8th token); thorough queries every offset",
+        design="5/C03"),
+    "C06": dict(
+        engine="tgv-ide",
+        technique=FORM_E + "; oracle-free invariant: definition and references are mutually consistent views of one symbol table",
+        text="On the same exhaustive workspace space as C03, at every queried offset the four coherence clauses of the property are checked against an independent parse of the files (identifier tokens and their spelling).",
+        note="identifier under the cursor = Id token containing the offset, else the one ending there",
+        design="5/C06"),
+    "C17": dict(
+        engine="tgv-ide",
+        technique=FORM_E + "; oracle-free invariant: every range of every result lies inside the named workspace file on character boundaries",
+        text="On the C03 workspace space with CRLF and 2/3/4-byte characters injected, every range of every result of every query kind is validated against the current file texts and the workspace key set.",
+        note="workspace membership = key set of diagnostics()",
+        design="5/C17"),
+})
+
 NOT_YET = {}
 
 def main():
